@@ -134,74 +134,7 @@ func rulesC11(e *Engine, r *Report) {
 			}
 		}
 	}
-	if fn := needFn(e, r, "R11.1", "client.(*recoverFile).Allocate"); fn != nil {
-		rng := "p0.left[p0.part]"
-		off := "(" + rng + ".Beg + p0.used)"
-		cls := labeler(
-			C("("+rng+".End <= ("+off+" + p1))", "rangeDone"),
-			C("(("+off+" + p1) < "+rng+".End)", "rangeOpen"),
-			IK("store(p0.used = §)", "usedReset"),
-			IK("store(p0.used = §)", "usedAdvanced"),
-			I("store(p0.used = 0)", "usedReset"),
-			I("store(p0.used = (p0.used + p1))", "usedAdvanced"),
-			I("store(p0.part = (p0.part + 1))", "nextRange"),
-		)
-		n := 0
-		for _, rw := range e.returnWorlds(r, "R11.1", fn, cls) {
-			n++
-			rt := rw.In.(*ssa.Return)
-			o, l := e.Canon(rt.Results[0]), e.Canon(rt.Results[1])
-			oldU, _ := e.oldValue(fn, rt.Results[0], "used")
-			oldP, _ := e.oldValue(fn, rt.Results[0], "part")
-			r.Check(o == off && oldU && oldP, "R11.1", fmt.Sprintf("client.(*recoverFile).Allocate: offset = range.Beg + used (before the update) %s", rw.W.String()), e.InstrPos(rt),
-				"the offset handed out is not the current range's Beg plus the bytes already used (as they were before this call): "+o, 1, o)
-			if rw.W.Has("rangeDone") {
-				okl := strings.Contains(l, "("+rng+".End - "+off+")")
-				r.Check(rw.W.HasAll("usedReset", "nextRange") && !rw.W.Has("usedAdvanced") && okl, "R11.1", "client.(*recoverFile).Allocate: range exhausted → length = End-offset, next range, used left at 0 "+rw.W.String(), e.InstrPos(rt),
-					"when a missing range is used up the state for the next range is wrong (used must end at 0, part advance by one, length clamp to the range end): the next range would start at the wrong offset", 1, rw.W.String(), l)
-			} else {
-				r.Check(rw.W.Has("usedAdvanced") && !rw.W.Has("nextRange") && strings.Contains(l, "p1"), "R11.1", "client.(*recoverFile).Allocate: inside a range → length = desired, used += desired "+rw.W.String(), e.InstrPos(rt),
-					"inside a missing range the bytes handed out and the bytes accounted differ", 1, rw.W.String(), l)
-			}
-		}
-		r.Min("R11.1", "return path classes of recoverFile.Allocate", n, 2)
-		// the phi for the length: per-edge correctness
-		Instrs(fn, func(in ssa.Instruction) {
-			rt, ok := in.(*ssa.Return)
-			if !ok || len(rt.Results) != 2 {
-				return
-			}
-			if ph, ok := rt.Results[1].(*ssa.Phi); ok {
-				okE := true
-				var facts []string
-				for i, ed := range ph.Edges {
-					cv := e.Canon(ed)
-					conds := e.domConds(ph.Block().Preds[i])
-					if t, ok2 := ph.Block().Preds[i].Instrs[len(ph.Block().Preds[i].Instrs)-1].(*ssa.If); ok2 {
-						conds = append(conds, e.CondStr(t.Cond, ph.Block().Preds[i].Succs[0] == ph.Block()))
-					}
-					facts = append(facts, cv+" under "+strings.Join(conds, " & "))
-					switch cv {
-					case "p1":
-						if !hasStr(conds, "(("+off+" + p1) < "+rng+".End)") {
-							okE = false
-						}
-					case "(" + rng + ".End - " + off + ")":
-						if !hasStr(conds, "("+rng+".End <= ("+off+" + p1))") {
-							okE = false
-						}
-						if old, _ := e.oldValue(fn, ed, "used"); !old {
-							okE = false
-							facts = append(facts, "clamp computed from `used` AFTER its update")
-						}
-					default:
-						okE = false
-					}
-				}
-				r.Check(okE, "R11.1", "client.(*recoverFile).Allocate: length per branch (desired inside the range | End-offset at its end)", e.InstrPos(rt), "a branch returns a length that does not fit its condition", len(ph.Edges), facts...)
-			}
-		})
-	}
+	e.checkRecoverAllocate(r, "R11.1")
 	for _, spec := range []struct{ fn, want, what string }{
 		{"client.(*recoverFile).IsAllocated", "(builtin(len)(p0.left) == p0.part)", "all missing ranges handed out"},
 		{"queue.(*sortedFile).isAllocated", "(invoke(sts.Hashed.GetSize)(p0.orig) == p0.allocated)", "counter reached the file size"},
@@ -382,5 +315,78 @@ func rulesC11(e *Engine, r *Report) {
 		l := e.fieldStoreVals(fn, "queue.sendable", "length")
 		ok := len(o) == 1 && len(l) == 1 && pat(al+"#0").MatchString(o[0]) && pat(al+"#1").MatchString(l[0]) && strings.TrimSuffix(o[0], "#0") == strings.TrimSuffix(l[0], "#1")
 		r.Check(ok, "R11.4", "queue.(*Tagged).Pop: chunk (offset, length) ← the two results of one allocate call", e.Pos(fn.Pos()), "the chunk's extent is not what allocate handed out", 2)
+	}
+}
+
+// checkRecoverAllocate: the allocator of a resumed file hands out exactly its
+// missing ranges (shared by C11 and C07).
+func (e *Engine) checkRecoverAllocate(r *Report, rule string) {
+	if fn := needFn(e, r, rule, "client.(*recoverFile).Allocate"); fn != nil {
+		rng := "p0.left[p0.part]"
+		off := "(" + rng + ".Beg + p0.used)"
+		cls := labeler(
+			C("("+rng+".End <= ("+off+" + p1))", "rangeDone"),
+			C("(("+off+" + p1) < "+rng+".End)", "rangeOpen"),
+			IK("store(p0.used = §)", "usedReset"),
+			IK("store(p0.used = §)", "usedAdvanced"),
+			I("store(p0.used = 0)", "usedReset"),
+			I("store(p0.used = (p0.used + p1))", "usedAdvanced"),
+			I("store(p0.part = (p0.part + 1))", "nextRange"),
+		)
+		n := 0
+		for _, rw := range e.returnWorlds(r, rule, fn, cls) {
+			n++
+			rt := rw.In.(*ssa.Return)
+			o, l := e.Canon(rt.Results[0]), e.Canon(rt.Results[1])
+			oldU, _ := e.oldValue(fn, rt.Results[0], "used")
+			oldP, _ := e.oldValue(fn, rt.Results[0], "part")
+			r.Check(o == off && oldU && oldP, rule, fmt.Sprintf("client.(*recoverFile).Allocate: offset = range.Beg + used (before the update) %s", rw.W.String()), e.InstrPos(rt),
+				"the offset handed out is not the current range's Beg plus the bytes already used (as they were before this call): "+o, 1, o)
+			if rw.W.Has("rangeDone") {
+				okl := strings.Contains(l, "("+rng+".End - "+off+")")
+				r.Check(rw.W.HasAll("usedReset", "nextRange") && !rw.W.Has("usedAdvanced") && okl, rule, "client.(*recoverFile).Allocate: range exhausted → length = End-offset, next range, used left at 0 "+rw.W.String(), e.InstrPos(rt),
+					"when a missing range is used up the state for the next range is wrong (used must end at 0, part advance by one, length clamp to the range end): the next range would start at the wrong offset", 1, rw.W.String(), l)
+			} else {
+				r.Check(rw.W.Has("usedAdvanced") && !rw.W.Has("nextRange") && strings.Contains(l, "p1"), rule, "client.(*recoverFile).Allocate: inside a range → length = desired, used += desired "+rw.W.String(), e.InstrPos(rt),
+					"inside a missing range the bytes handed out and the bytes accounted differ", 1, rw.W.String(), l)
+			}
+		}
+		r.Min(rule, "return path classes of recoverFile.Allocate", n, 2)
+		// the phi for the length: per-edge correctness
+		Instrs(fn, func(in ssa.Instruction) {
+			rt, ok := in.(*ssa.Return)
+			if !ok || len(rt.Results) != 2 {
+				return
+			}
+			if ph, ok := rt.Results[1].(*ssa.Phi); ok {
+				okE := true
+				var facts []string
+				for i, ed := range ph.Edges {
+					cv := e.Canon(ed)
+					conds := e.domConds(ph.Block().Preds[i])
+					if t, ok2 := ph.Block().Preds[i].Instrs[len(ph.Block().Preds[i].Instrs)-1].(*ssa.If); ok2 {
+						conds = append(conds, e.CondStr(t.Cond, ph.Block().Preds[i].Succs[0] == ph.Block()))
+					}
+					facts = append(facts, cv+" under "+strings.Join(conds, " & "))
+					switch cv {
+					case "p1":
+						if !hasStr(conds, "(("+off+" + p1) < "+rng+".End)") {
+							okE = false
+						}
+					case "(" + rng + ".End - " + off + ")":
+						if !hasStr(conds, "("+rng+".End <= ("+off+" + p1))") {
+							okE = false
+						}
+						if old, _ := e.oldValue(fn, ed, "used"); !old {
+							okE = false
+							facts = append(facts, "clamp computed from `used` AFTER its update")
+						}
+					default:
+						okE = false
+					}
+				}
+				r.Check(okE, rule, "client.(*recoverFile).Allocate: length per branch (desired inside the range | End-offset at its end)", e.InstrPos(rt), "a branch returns a length that does not fit its condition", len(ph.Edges), facts...)
+			}
+		})
 	}
 }
